@@ -33,6 +33,9 @@ type c19Case struct {
 	// silent), "wsraw" (a TCP connection to the WebSocket listener that never sends its upgrade request); "": handed to
 	// the session manager directly
 	Via string `json:"via,omitempty"`
+	// kind "conn", Via "": the client is not silent but SLOW: half a CONNECT at once, then one byte every 300 ms - the
+	// CONNECT is not complete within the connect timeout, the socket is closed all the same and never answered
+	Trickle bool `json:"trickle,omitempty"`
 }
 
 type c19Obs struct {
@@ -56,7 +59,9 @@ func (p *c19Prop) Parallel() int { return 24 }
 func (p *c19Prop) Gen(r *Rng, i int, tier string) interface{} {
 	if i%6 == 5 {
 		ct := 1 + r.Intn(2)
-		return &c19Case{Kind: "conn", CT: ct, Horizon: ct*1500 + 2500, Via: []string{"", "", "tcp", "ws", "wsraw"}[r.Intn(5)]}
+		cc := &c19Case{Kind: "conn", CT: ct, Horizon: ct*1500 + 2500, Via: []string{"", "", "tcp", "ws", "wsraw"}[r.Intn(5)]}
+		cc.Trickle = cc.Via == "" && r.Bool()
+		return cc
 	}
 	c := &c19Case{Kind: "keep", K: []int{1, 2, 2, 3, 0}[r.Intn(5)]}
 	if r.Chance(30) {
@@ -182,9 +187,30 @@ func (p *c19Prop) Run(ci interface{}) interface{} {
 	if c.Kind == "conn" {
 		t0 := time.Now() // before the broker can have armed anything
 		cl := b.Dial()
+		if c.Trickle {
+			cp := mqttp.NewConnect(mqttp.ProtocolV311)
+			cp.SetClean(true)
+			_ = cp.SetClientID([]byte("a-client-id-of-some-length"))
+			raw, _ := mqttp.Encode(cp)
+			go func() {
+				if cl.SendRaw(raw[:8]) != nil {
+					return
+				}
+				for _, x := range raw[8:] {
+					time.Sleep(300 * time.Millisecond)
+					if cl.SendRaw([]byte{x}) != nil {
+						return
+					}
+				}
+			}()
+		}
 		_ = cl.conn.SetReadDeadline(t0.Add(time.Duration(c.Horizon) * time.Millisecond))
 		buf := make([]byte, 16)
-		_, err := cl.conn.Read(buf)
+		n, err := cl.conn.Read(buf)
+		if n > 0 {
+			obs.Err = "the socket was answered although its CONNECT was not complete within the connect timeout"
+			return obs
+		}
 		if err == io.EOF || err == io.ErrClosedPipe {
 			obs.Closed = true
 			obs.ClosedAt = int(time.Since(t0) / time.Millisecond)
